@@ -263,6 +263,16 @@ def one(ctx, c, setname, a, transports, do_transports, rng):
 
                     resp = response_for(c, full, rng, big=True)
 
+                    if c.name in ("ModeSense6", "ModeSense10") and FIRST[0] % 3 == 0:
+                        # the largest MODE DATA LENGTH there is (FFh / FFFEh / FFFFh): more data than any allocation length can ask for
+                        resp = bytearray(resp)
+                        if c.name == "ModeSense6":
+                            resp[0:1] = b"\xff"
+                        else:
+                            resp[0:2] = (b"\xff\xff", b"\xff\xfe")[FIRST[0] % 2]
+                        resp = bytes(resp)
+                        ctx.count("mode_data_lengths_at_the_maximum")
+
                     def filler(ev, resp=resp):
                         buf = ev.get("eff_in") if "eff_in" in ev else ev.get("in")
                         if buf is not None and len(buf) and resp:
@@ -366,6 +376,9 @@ def one(ctx, c, setname, a, transports, do_transports, rng):
                             ctx.count("adjusted_commands_handed_over_again")
                             if log:
                                 check_buffers(ctx, c, setname, tname + ".after_in_place_adjustment", full, log[0]["cdb"], log[0]["in"], log[0]["out"], by_cdb_only=True)
+                                if tname == "iscsi" and (log[0].get("dir"), log[0].get("xferlen")) != ((1, new_len) if new_len else (0, 0)):
+                                    ctx.fail("C03:%s.iscsi_task_direction" % c.name, "after the adjustment the task was created with dir=%r xferlen=%r for a %d-byte data-in buffer"
+                                             % (log[0].get("dir"), log[0].get("xferlen"), new_len), {"cmd": c.name, "args": a, "transport": tname})
                                 if _R.get(log[0]["cdb"], byte, msb, width) != new_len:
                                     ctx.fail("C03:%s.in_place_adjustment_lost" % c.name, "ALLOCATION LENGTH %d written into cmd.cdb in place; the binding received a CDB announcing %d"
                                              % (new_len, _R.get(log[0]["cdb"], byte, msb, width)), {"cmd": c.name, "args": a, "transport": tname})
